@@ -2,14 +2,14 @@
 import gen, streams, grammar
 from common import *
 import sqlparse
-from sqlparse import tokens as T
+from sqlparse import sql, tokens as T
 import props.C02 as C02
 
 RULE = ('inputs: corpus, g2 fragments biased to ( ) [ ] CASE END IF "END IF" FOR "END LOOP" BEGIN in arbitrary (also unbalanced) interleavings, grammar scripts and blocks; '
         'every dictionary word (and the multi-word END/loop keywords of the lexer) as a would-be opener/closer against each real opener/closer; each kind nested in 25..70 levels of each other kind and alternating kinds; '
         'second pass: every sequence of <= 4 (thorough 5) openers/closers/words (all crossings); every whitespace character inside END IF / END LOOP; spans of the six classes compared with an independent stack matcher over the flattened leaves; non-trivial = distinct input with at least one opener or closer')
 ASSUMPTIONS = C02.ASSUMPTIONS
-PARTIAL = ['that what align_comments appends is exactly whitespace + one Comment group is oracle-checked; matching refinement and preservation of the six classes by all later passes are theorems']
+PARTIAL = ['that what align_comments appends is exactly whitespace + one Comment group is oracle-checked; matching refinement, preservation of the six classes by all later passes, and (under DelimSafe) opener = first child / closer = last child before trailing comments in the final tree are theorems']
 
 def kw(vals):
     vs = set(vals)
@@ -191,8 +191,63 @@ def run(ctx):
     ctx.samples += [short(s, 80) for s in ins[:3]]
     if ctx.model.available and hasattr(streams, 's_tree'):
         streams.s_tree(ctx, ins[: ctx.n(2500, 30000)] + extra[:: ctx.n(4, 1)])
+        domain_delimsafe(ctx, [s for s in ins[: ctx.n(4000, 40000)] + extra[:: ctx.n(4, 1)] if len(s) < 600])
     else:
         ctx.notes.append('model driver unavailable: correspondence streams skipped')
+
+
+SIX = (sql.Parenthesis, sql.SquareBrackets, sql.Case, sql.If, sql.For, sql.Begin)
+
+
+def child_shape_ok(node):
+    """every bracket/block group below `node`: first child = its opener token, last child before trailing whitespace / Comment groups = its closer token"""
+    for ch in node.tokens:
+        if ch.is_group:
+            if type(ch) in SIX:
+                ks = ch.tokens
+                if not ks or ks[0].is_group or not ks[0].match(*type(ch).M_OPEN):
+                    return False
+                rest = list(ks[1:])
+                while rest and (rest[-1].is_whitespace or isinstance(rest[-1], sql.Comment)):
+                    rest.pop()
+                if not rest or rest[-1].is_group or not rest[-1].match(*type(ch).M_CLOSE):
+                    return False
+            if not child_shape_ok(ch):
+                return False
+    return True
+
+
+def domain_delimsafe(ctx, inputs):
+    """DOMAIN(delimsafe): the hypothesis of `delimiters_kept_childwise` is evaluated by the Lean driver on every statement; where it holds, the REAL
+    grouped tree must have the predicted child-level shape (and the model's own shape bit must agree with the real tree everywhere)."""
+    outs = ctx.model.ask(['delimsafe ' + hexs(s) for s in inputs])
+    safe = unsafe = 0
+    for s, o in zip(inputs, outs):
+        ctx.stream('DOMAIN(delimsafe)', inputs=1, lines=1)
+        if not o.startswith('ok'):
+            continue
+        try:
+            real = sqlparse.parse(s)
+        except Exception:
+            continue
+        parts = o.split()[1:]
+        if len(parts) != len(real):
+            continue
+        for st, pp in zip(real, parts):
+            sf, shape = pp.split(':')
+            ok = child_shape_ok(st)
+            if shape != 'e' and (shape == '1') != ok:
+                ctx.mismatch('DOMAIN(delimsafe)', s, 'real tree child shape %s' % ok, 'model child shape %s' % shape)
+                break
+            if sf == '1':
+                safe += 1
+                if not ok:
+                    ctx.mismatch('DOMAIN(delimsafe)', s, 'DelimSafe statement whose tree has a delimiter that is not a direct first/last child', 'opener first, closer last (theorem delimiters_kept_childwise)')
+                    break
+            else:
+                unsafe += 1
+    ctx.dist['delimsafe_statements_in_domain'] = safe
+    ctx.dist['delimsafe_statements_outside'] = unsafe
 
 
 def replay(ctx, payload):
